@@ -4210,9 +4210,7 @@ int CLUFactor<R>::solveUpdateLeft(R eps, R* vec, int* nonz, int n)
       val = &lval[k];
       idx = &lidx[k];
 
-      k = lrow[i];
-
-      y = vec[k];
+      y = vec[lrow[i]];
       StableSum<R> tmp(-y);
 
       for(j = lbeg[i + 1]; j > k; --j)
@@ -4220,6 +4218,8 @@ int CLUFactor<R>::solveUpdateLeft(R eps, R* vec, int* nonz, int n)
          assert(*idx >= 0 && *idx < thedim);
          tmp += vec[*idx++] * (*val++);
       }
+
+      k = lrow[i];
 
       if(y == 0)
       {
